@@ -1,1 +1,435 @@
-/- C14: property theorems go here (only property theorems, non-vacuity examples, #print axioms). -/
+import StorageModel.Cursor.KindsProofs
+import StorageModel.Cursor.StackedProofs
+/-
+  C14 — Every set cursor enumerates its set exactly, in order, and seeks correctly.
+
+  "Every set cursor the library hands out - forward or reverse, raw or typed, filtered, union or
+  tree-backed, over index values, index keys, link sets or related-entity sets - enumerates
+  exactly the elements of its underlying set once each in key order (descending for reverse
+  cursors), reports invalid once exhausted and immediately for an empty set without panicking,
+  and returns element values without storage type tags.  After Seek(v) a seekable cursor is
+  positioned on the first element >= v (the last element <= v for reverse cursors), or is
+  invalid if there is none."   — for all finite sets of byte strings (including the empty string,
+  shared prefixes, the empty set) × all cursor kinds × all seek targets × all interleavings of
+  Next and Seek.
+
+  `Desc` describes a cursor the library hands out (kind + data, nested for the wrappers);
+  `Desc.open` is the model — the literal Go adapters stacked on the bbolt cursor model
+  (StorageModel/Cursor/{Bolt,Mem,Scanner,Kinds}.lean); `Desc.spec` / `Desc.list` the
+  specification.  The correspondence check runs `Desc.open` (driver) against the real cursors.
+  bbolt itself (ordered keys, First/Last/Next/Prev/Seek) is modelled, not verified.
+-/
+namespace StorageModel.Properties.C14
+open StorageModel StorageModel.Cursor
+
+/-! ### what the underlying set of a described cursor is -/
+
+/-- the elements of the underlying set, in any order, possibly repeated -/
+def elems : Desc → List Bytes
+  | .fwd xs | .rev xs | .tfwd _ xs | .trev _ xs | .setsym xs | .slice _ xs | .tree _ _ xs => xs
+  | .setsymNone | .empty => []
+  | .filt i keep => (elems i).filter (Desc.mem keep)
+  | .union _ a b => elems a ++ elems b
+  | .scan i skip keep => (elems i).filter (fun x => !Desc.mem skip x && Desc.mem keep x)
+  | .validIds i present => (elems i).filter (Desc.mem present)
+
+theorem mem_list_iff : ∀ (d : Desc) (x : Bytes), x ∈ d.list ↔ x ∈ elems d
+  | .fwd xs, x | .tfwd _ xs, x | .setsym xs, x => mem_sortD
+  | .rev xs, x | .trev _ xs, x => by simp [Desc.list, elems, mem_sortD]
+  | .setsymNone, x | .empty, x => by simp [Desc.list, elems]
+  | .slice _ vals, x => Iff.rfl
+  | .tree d _ adds, x => mem_sortD
+  | .filt i keep, x => by simp [Desc.list, elems, mem_list_iff i x]
+  | .scan i skip keep, x => by simp [Desc.list, elems, mem_list_iff i x]
+  | .validIds i present, x => by simp [Desc.list, elems, mem_list_iff i x]
+  | .union d a b, x => by simp [Desc.list, elems, mem_sortD, mem_list_iff a x, mem_list_iff b x]
+
+/-- **the specification list is the underlying set in key order**: `order kind (dedupSort xs)` -/
+theorem list_is_ordered_set (d : Desc) (h : d.WF) : d.list = order d.dir (dedupSort (elems d)) := by
+  rw [← sortD_eq_order]
+  exact sorted_ext (Desc.sorted d h) sorted_sortD (fun x => by rw [mem_list_iff, mem_sortD])
+
+/-! ### the property theorems -/
+
+/-- **Any interleaving of Next and Seek.**  For every described cursor and every script the
+    model — the literal adapters over the bbolt model — produces, observation by observation
+    (after opening and after every operation), what the specification prescribes; in particular
+    no operation panics.  (`d.render` is `some` except for cursors that read through
+    `GetTypeAndValue`, which return nil for the empty element.) -/
+theorem next_seek_mix (d : Desc) (h : d.WF) (ops : List Op) :
+    d.open.run ops = (d.spec.openRun ops).map (Obs.render d.render) :=
+  (Desc.implements d h).run_eq ops
+
+/-- **Exact enumeration, once each, in order.**  Iterating a freshly opened cursor to exhaustion
+    yields exactly the underlying set as `order kind (dedupSort xs)` — each element once,
+    ascending for forward and descending for reverse cursors — and terminates within the model's
+    loop budget. -/
+theorem enumerates (d : Desc) (h : d.WF) :
+    d.open.toList d.fuel = .ok ((order d.dir (dedupSort (elems d))).map d.render) := by
+  rw [← list_is_ordered_set d h]
+  have := (Desc.implements d h).toList_eq (fuel := d.fuel) (by rw [Desc.spec_list]; exact Desc.list_lt_fuel d)
+  rwa [Desc.spec_list] at this
+
+theorem getLast?_cons_snoc {α} (a : α) (l : List α) (x : α) : (a :: (l ++ [x])).getLast? = some x := by
+  rw [← List.cons_append, List.getLast?_append]; simp
+
+theorem not_before_fwd (v : Bytes) : (fun x => !decide (Dir.fwd.before x v)) = fun x => decide (v ≤ x) := by
+  funext x
+  have : (v ≤ x) ↔ ¬ x < v := ble_iff
+  simp only [Dir.before, this, decide_not]
+
+theorem not_before_rev (v : Bytes) : (fun x => !decide (Dir.rev.before x v)) = fun x => decide (x ≤ v) := by
+  funext x
+  have : (x ≤ v) ↔ ¬ v < x := ble_iff
+  simp only [Dir.before, this, decide_not]
+
+theorem run_nexts_spec (S : Spec) : ∀ (n : Nat) (rem : List Bytes),
+    S.run (List.replicate n .next) rem = (List.range n).map fun i => Spec.observe (rem.drop (i + 1))
+  | 0, _ => rfl
+  | n + 1, rem => by
+    have ih := run_nexts_spec S n rem.tail
+    simp only [List.replicate_succ, Spec.run, Spec.method, ih, List.range_succ_eq_map, List.map_cons, List.map_map]
+    simp [Function.comp_def, List.drop_tail] 
+
+/-- **Exhausted means invalid, and it stays so.**  After as many `Next` calls as there are
+    elements the cursor reports invalid, and every further `Next` leaves it invalid
+    (no panic, no resurrection). -/
+theorem exhausted_invalid (d : Desc) (h : d.WF) (k : Nat) :
+    (d.open.run (List.replicate (d.list.length + k) .next)).getLast? = some .invalid := by
+  rw [next_seek_mix d h, Spec.openRun, Desc.spec_list, run_nexts_spec]
+  cases hn : d.list.length + k with
+  | zero =>
+    have : d.list = [] := List.eq_nil_of_length_eq_zero (by omega)
+    simp [this, Spec.observe, Obs.render]
+  | succ n =>
+    have : d.list.drop (n + 1) = [] := List.drop_eq_nil_iff.2 (by omega)
+    simp only [List.range_succ, List.map_append, List.map_cons, List.map_nil, this, Spec.observe, Obs.render]
+    exact getLast?_cons_snoc _ _ _
+
+theorem spec_method_nil (d : Desc) (op : Op) : ∀ f, d.spec.method op = some f → f [] = [] ∨ d.list ≠ [] := by
+  intro f hf
+  by_cases hl : d.list = []
+  · left
+    cases op with
+    | next => simp only [Spec.method, Option.some.injEq] at hf; subst hf; rfl
+    | seek v =>
+      by_cases hstd : d.isStd = true
+      · rw [Desc.spec_of_isStd hstd] at hf
+        simp only [Spec.method, Spec.std] at hf
+        split at hf
+        · simp only [Option.map_some, Option.some.injEq] at hf
+          subst hf; simp [Spec.seekIn, hl]
+        · simp at hf
+      · cases d <;> simp [Desc.isStd] at hstd
+        · simp only [Desc.list] at hl
+          simp only [Spec.method, Desc.spec, setSymSpec, Option.map_some, Option.some.injEq] at hf
+          subst hf; simp [hl]
+        · simp only [Spec.method, Desc.spec, setSymSpec, Option.map_some, Option.some.injEq] at hf
+          subst hf; simp
+    | seekS v =>
+      by_cases hstd : d.isStd = true
+      · rw [Desc.spec_of_isStd hstd] at hf
+        simp [Spec.method, Spec.std] at hf
+      · cases d <;> simp [Desc.isStd] at hstd
+        · simp only [Desc.list] at hl
+          simp only [Spec.method, Desc.spec, setSymSpec, Option.map_some, Option.some.injEq] at hf
+          subst hf; simp [Spec.seekIn, hl]
+        · simp only [Spec.method, Desc.spec, setSymSpec, Option.map_some, Option.some.injEq] at hf
+          subst hf; simp [Spec.seekIn]
+  · exact .inr hl
+
+theorem spec_run_empty (d : Desc) (hl : d.list = []) : ∀ (ops : List Op),
+    ∀ o ∈ d.spec.run ops [], o = Obs.invalid ∨ o = Obs.unsupported
+  | [], o, ho => by simp [Spec.run] at ho
+  | op :: ops, o, ho => by
+    unfold Spec.run at ho
+    cases hm : d.spec.method op with
+    | none =>
+      simp only [hm, List.mem_cons] at ho
+      rcases ho with rfl | ho
+      · exact .inr rfl
+      · exact spec_run_empty d hl ops o ho
+    | some f =>
+      have hf : f [] = [] := by
+        rcases spec_method_nil d op f hm with h | h
+        · exact h
+        · exact absurd hl h
+      simp only [hm, hf, List.mem_cons] at ho
+      rcases ho with rfl | ho
+      · exact .inl rfl
+      · exact spec_run_empty d hl ops o ho
+
+/-- **The empty set: invalid at once, never a panic.**  A cursor over an empty set (empty
+    bucket, missing bucket, empty tree — `NewTreeCursor` on a tree without root —, filter that
+    rejects everything, …) is invalid right after it has been opened and stays invalid under
+    every script; nothing panics. -/
+theorem empty_invalid_no_panic (d : Desc) (h : d.WF) (hempty : ∀ x, x ∉ elems d) (ops : List Op) :
+    ∀ o ∈ d.open.run ops, o = Obs.invalid ∨ o = Obs.unsupported := by
+  have hl : d.list = [] := List.eq_nil_iff_forall_not_mem.2 (fun x hx => hempty x ((mem_list_iff d x).1 hx))
+  rw [next_seek_mix d h, Spec.openRun, Desc.spec_list, hl]
+  intro o ho
+  simp only [List.map_cons, List.mem_cons, List.mem_map] at ho
+  rcases ho with rfl | ⟨o', ho', rfl⟩
+  · exact .inl rfl
+  · rcases spec_run_empty d hl ops o' ho' with rfl | rfl
+    · exact .inl rfl
+    · exact .inr rfl
+
+/-- **No storage type tag in the values.**  The list bucket of a typed cursor holds the keys
+    `tag :: e`; the cursor returns the elements `e` themselves (forward: ascending, reverse:
+    descending), for every tag byte and every set, including the empty-string element. -/
+theorem untagged (tag : UInt8) (xs : List Bytes) :
+    (∀ k ∈ tagged tag (dedupSort xs), ∃ e ∈ xs, k = tag :: e) ∧
+    (Desc.tfwd tag xs).open.toList (xs.length + 2) = .ok ((dedupSort xs).map some) ∧
+    (Desc.trev tag xs).open.toList (xs.length + 2) = .ok ((dedupSort xs).reverse.map some) := by
+  refine ⟨?_, ?_, ?_⟩
+  · intro k hk
+    simp only [tagged, List.mem_map] at hk
+    obtain ⟨e, he, rfl⟩ := hk
+    exact ⟨e, mem_sortD.1 he, rfl⟩
+  · have := (Desc.implements (.tfwd tag xs) trivial).toList_eq (fuel := xs.length + 2)
+      (by have : (dedupSort xs).length ≤ xs.length := sortD_length_le .fwd xs
+          simp [Desc.spec, Spec.std, Desc.list]; omega)
+    exact this
+  · have := (Desc.implements (.trev tag xs) trivial).toList_eq (fuel := xs.length + 2)
+      (by have : (dedupSort xs).length ≤ xs.length := sortD_length_le .fwd xs
+          simp [Desc.spec, Spec.std, Desc.list]; omega)
+    exact this
+
+/-- the set-symbol cursor strips the tag as well; by the empty ≡ nil convention of
+    `GetTypeAndValue` the empty element is returned as nil (the cursor stays valid on it) -/
+theorem untagged_setsym (xs : List Bytes) :
+    (Desc.setsym xs).open.toList (xs.length + 2) = .ok ((dedupSort xs).map renderNilEmpty) := by
+  have := (Desc.implements (.setsym xs) trivial).toList_eq (fuel := xs.length + 2)
+    (by have : (dedupSort xs).length ≤ xs.length := sortD_length_le .fwd xs
+        simp [Desc.spec, setSymSpec]; omega)
+  exact this
+
+/-! ### seeks -/
+
+/-- the remaining list after a script, according to the specification -/
+def specState (S : Spec) : List Op → List Bytes → List Bytes
+  | [], rem => rem
+  | op :: ops, rem =>
+    match S.method op with
+    | none => specState S ops rem
+    | some f => specState S ops (f rem)
+
+theorem spec_run_snoc (S : Spec) (op : Op) : ∀ (ops : List Op) (rem : List Bytes),
+    S.run (ops ++ [op]) rem = S.run ops rem ++
+      (match S.method op with
+        | none => [Obs.unsupported]
+        | some f => [Spec.observe (f (specState S ops rem))])
+  | [], rem => by
+    simp only [List.nil_append, Spec.run, specState]
+    cases S.method op <;> rfl
+  | o :: ops, rem => by
+    simp only [List.cons_append, Spec.run, specState]
+    cases S.method o with
+    | none => simp [spec_run_snoc S op ops rem]
+    | some f => simp [spec_run_snoc S op ops (f rem)]
+
+theorem last_after_seek (d : Desc) (h : d.WF) (hstd : d.isStd = true) (hsk : d.seekable = true)
+    (ops : List Op) (v : Bytes) :
+    (d.open.run (ops ++ [.seek v])).getLast? = some ((Spec.observe (Spec.seekIn d.dir d.list v)).render d.render) := by
+  rw [next_seek_mix d h, Spec.openRun, spec_run_snoc]
+  rw [Desc.spec_of_isStd hstd, hsk]
+  simp only [Spec.method, Spec.std, if_true, Option.map_some, List.map_cons, List.map_append, List.map_nil]
+  exact getLast?_cons_snoc _ _ _
+
+/-- **Seek on a forward cursor.**  Whatever happened before (any script `ops`), after `Seek(v)`
+    the cursor stands on the first element `≥ v` of its set, or is invalid if there is none. -/
+theorem seek_forward (d : Desc) (h : d.WF) (hstd : d.isStd = true) (hsk : d.seekable = true)
+    (hdir : d.dir = .fwd) (ops : List Op) (v : Bytes) :
+    (d.open.run (ops ++ [.seek v])).getLast? =
+      some (match ((dedupSort (elems d)).filter (fun x => decide (v ≤ x))).head? with
+        | some x => .value (d.render x)
+        | none => .invalid) := by
+  rw [last_after_seek d h hstd hsk]
+  have hs := Desc.sorted d h
+  have hl := list_is_ordered_set d h
+  rw [hdir] at hs hl
+  simp only [order] at hl
+  rw [hdir, Spec.seekIn, dropWhile_eq_filter v hs, ← hl]
+  rw [not_before_fwd]
+  cases (d.list.filter fun x => decide (v ≤ x)) <;> rfl
+
+/-- **Seek on a reverse cursor.**  After `Seek(v)` the cursor stands on the last element `≤ v`
+    of its set (in key order), or is invalid if there is none. -/
+theorem seek_reverse (d : Desc) (h : d.WF) (hstd : d.isStd = true) (hsk : d.seekable = true)
+    (hdir : d.dir = .rev) (ops : List Op) (v : Bytes) :
+    (d.open.run (ops ++ [.seek v])).getLast? =
+      some (match ((dedupSort (elems d)).filter (fun x => decide (x ≤ v))).getLast? with
+        | some x => .value (d.render x)
+        | none => .invalid) := by
+  rw [last_after_seek d h hstd hsk]
+  have hs := Desc.sorted d h
+  have hl := list_is_ordered_set d h
+  rw [hdir] at hs hl
+  simp only [order] at hl
+  rw [hdir, Spec.seekIn, dropWhile_eq_filter v hs]
+  rw [not_before_rev, hl, List.filter_reverse]
+  cases hq : ((dedupSort (elems d)).filter fun x => decide (x ≤ v)).reverse with
+  | nil =>
+    have : ((dedupSort (elems d)).filter fun x => decide (x ≤ v)) = [] := by simpa using hq
+    simp [this, Spec.observe, Obs.render]
+  | cons y t =>
+    have : ((dedupSort (elems d)).filter fun x => decide (x ≤ v)).getLast? = some y := by
+      rw [← List.head?_reverse, hq]; rfl
+    simp [this, Spec.observe, Obs.render]
+
+/-- **`SeekToString` on the set-symbol cursor** lands on the first element `≥ v`
+    (the raw `Seek` of that type compares against stored keys, type byte included: `setSymSpec`). -/
+theorem seek_setsym (xs : List Bytes) (ops : List Op) (v : Bytes) :
+    ((Desc.setsym xs).open.run (ops ++ [.seekS v])).getLast? =
+      some (match ((dedupSort xs).filter (fun x => decide (v ≤ x))).head? with
+        | some x => .value (renderNilEmpty x)
+        | none => .invalid) := by
+  rw [next_seek_mix (.setsym xs) trivial, Spec.openRun, spec_run_snoc]
+  have hs : Sorted .fwd (dedupSort xs) := sorted_sortD
+  simp only [Spec.method, Desc.spec, setSymSpec, Option.map_some, List.map_cons, List.map_append, List.map_nil]
+  rw [getLast?_cons_snoc, Spec.seekIn, dropWhile_eq_filter v hs, not_before_fwd]
+  simp only [Desc.render, Desc.renderNil, if_true]
+  cases ((dedupSort xs).filter fun x => decide (v ≤ x)) <;> rfl
+
+/-! ### the in-memory cursors, for arbitrary operands -/
+
+/-- **Union: every element of either operand exactly once, in order.**  For any two cursors
+    that implement lists sorted in the union's direction — whatever they return for the empty
+    element (`some []` or nil, `Faithful`) — `NewUnionSetCursor` behaves, under every script, as a
+    cursor over the sorted duplicate-free union: a shared element is emitted once, validity does
+    not depend on the returned value being non-nil, and iterating to exhaustion yields the whole
+    union, each value rendered as the operand it is taken from renders it (the first on a tie). -/
+theorem union_exact {a b : AnyCursor} {S₁ S₂ : Spec} {r₁ r₂ : Render} (d : Dir) (ha : a.Implements S₁ r₁)
+    (hb : b.Implements S₂ r₂) (hf₁ : Faithful r₁) (hf₂ : Faithful r₂)
+    (h₁ : Sorted d S₁.list) (h₂ : Sorted d S₂.list) (ops : List Op) {fuel : Nat}
+    (hf : S₁.list.length + S₂.list.length < fuel) :
+    (newUnionSetCursor a b (d == .fwd)).run ops =
+      ((Spec.plain (sortD d (S₁.list ++ S₂.list))).openRun ops).map (Obs.render (unionRender S₁.list r₁ r₂)) ∧
+    (newUnionSetCursor a b (d == .fwd)).toList fuel =
+      .ok ((sortD d (S₁.list ++ S₂.list)).map (unionRender S₁.list r₁ r₂)) ∧
+    Faithful (unionRender S₁.list r₁ r₂) := by
+  have := newUnionSetCursor_implements ha hb hf₁ hf₂ d h₁ h₂
+  rw [merge_eq_sortD h₁ h₂] at this
+  refine ⟨this.run_eq ops, this.toList_eq ?_, faithful_unionRender hf₁ hf₂⟩
+  have := sortD_length_le d (S₁.list ++ S₂.list)
+  simp only [Spec.std, List.length_append] at this ⊢; omega
+
+/-- **Filtered: exactly the accepted elements, none skipped.**  For any wrapped cursor and any
+    predicate, `NewFilteredCursor` enumerates the wrapped list filtered — in particular the
+    element after a rejected one is not lost, and a cursor whose elements are all rejected (or
+    that is empty) is invalid from the start. -/
+theorem filtered_exact {c : AnyCursor} {S : Spec} {r : Render} (h : c.Implements S r) (p : Option Bytes → Bool)
+    {fuel : Nat} (hf : S.list.length < fuel) :
+    (newFilteredCursor c p fuel).toList fuel = .ok ((S.list.filter (fun x => p (r x))).map r) :=
+  (newFilteredCursor_implements h p hf).toList_eq
+    (Nat.lt_of_le_of_lt (List.length_filter_le _ _) hf)
+
+/-- **Tree cursor = in-order traversal, for every binary tree** (any shape the rebalancing of
+    the llrb tree may produce), without panic on the empty tree and on `Next` past the end; a
+    `TreeSet` filled by `Add` yields its elements once each in comparator order. -/
+theorem tree_inorder (root : Tree) (render : Render) (ops : List Op) (d : Dir) (adds : List Bytes) :
+    ({ σ := TreeCur, M := treeMachine render, init := newTreeCursor root } : AnyCursor).run ops =
+      ((Spec.plain root.inorder).openRun ops).map (Obs.render render) ∧
+    (treeSetCursor d render adds).toList (adds.length + 1) = .ok ((order d (dedupSort adds)).map render) := by
+  refine ⟨(treeCursor_implements root render).run_eq ops, ?_⟩
+  rw [← sortD_eq_order]
+  exact (treeSetCursor_implements d render adds).toList_eq
+    (Nat.lt_succ_of_le (sortD_length_le d adds))
+
+/-- **IteratorMatchingAllOf**: for every table of entities (one value list per id), every
+    non-empty list of values and either direction, the iterator is a well-formed cursor (so
+    `next_seek_mix`, `exhausted_invalid`, … apply) over exactly the ids that hold all the values,
+    in key order. -/
+theorem allOf_exact (d : Dir) (t : Desc.Table) (ht : Desc.Table.Functional t) (values : List Bytes)
+    (hv : values ≠ []) :
+    (Desc.allOf d t values).WF ∧
+    (Desc.allOf d t values).list = order d (dedupSort (Desc.hasAll t values)) ∧
+    (Desc.allOf d t values).open.toList (Desc.allOf d t values).fuel =
+      .ok ((order d (dedupSort (Desc.hasAll t values))).map (Desc.allOf d t values).render) := by
+  have hwf := Desc.allOf_wf d t values
+  have hl : (Desc.allOf d t values).list = order d (dedupSort (Desc.hasAll t values)) := by
+    rw [Desc.allOf_list d ht values hv, sortD_eq_order]
+  refine ⟨hwf, hl, ?_⟩
+  have := (Desc.implements _ hwf).toList_eq (fuel := (Desc.allOf d t values).fuel)
+    (by rw [Desc.spec_list]; exact Desc.list_lt_fuel _)
+  rwa [Desc.spec_list, hl] at this
+
+/-- **IteratorMatchingAnyOf**: exactly the ids that hold at least one of the values, once each
+    (an id holding several of them is not repeated), in key order; no panic when no id matches
+    (the tree set is then empty). -/
+theorem anyOf_exact (d : Dir) (t : Desc.Table) (values : List Bytes) (hv : values ≠ []) :
+    (Desc.anyOf d t values).WF ∧
+    (Desc.anyOf d t values).list = order d (dedupSort (Desc.hasAny t values)) ∧
+    (Desc.anyOf d t values).open.toList (Desc.anyOf d t values).fuel =
+      .ok ((order d (dedupSort (Desc.hasAny t values))).map (Desc.anyOf d t values).render) := by
+  have hwf := Desc.anyOf_wf d t values
+  have hl : (Desc.anyOf d t values).list = order d (dedupSort (Desc.hasAny t values)) := by
+    rw [Desc.anyOf_list d t values hv, sortD_eq_order]
+  refine ⟨hwf, hl, ?_⟩
+  have := (Desc.implements _ hwf).toList_eq (fuel := (Desc.anyOf d t values).fuel)
+    (by rw [Desc.spec_list]; exact Desc.list_lt_fuel _)
+  rwa [Desc.spec_list, hl] at this
+
+/-- non-vacuity of `Table.Functional`, and AnyOf over values nobody holds (the case that used to panic) -/
+example : Desc.Table.Functional [([97], [[114], [113]]), ([98], [[114]])] := by
+  intro x r r' h h'
+  simp only [List.mem_cons, Prod.mk.injEq, List.mem_nil_iff, or_false] at h h'
+  rcases h with ⟨rfl, rfl⟩ | ⟨rfl, rfl⟩ <;> rcases h' with ⟨h1, rfl⟩ | ⟨h1, rfl⟩ <;> first | rfl | (simp at h1)
+example : (Desc.anyOf .fwd [([97], [[114]])] [[120], [121]]).open.run [.next] = [.invalid, .invalid] := by decide
+
+/-- sliceSetCursor enumerates its slice (any list) -/
+theorem slice_exact (vals : List Bytes) (ops : List Op) :
+    (sliceCursor vals).run ops = (Spec.plain vals).openRun ops := by
+  have := (sliceCursor_implements vals).run_eq ops
+  rwa [map_render_some] at this
+
+/-- **stackedCursor** (the cursor of a composite set symbol such as `others.tags`; not a set
+    cursor: it walks a chain of path elements depth first).  For every non-empty chain, every
+    row and every script it yields exactly the depth-first concatenation of the keys of its path
+    elements, values without their type byte, and is invalid afterwards; no panic, and the loop
+    of `calculateNextCursorPosition` ends within `stackedFuel` iterations. -/
+theorem stacked_exact (l0 : Level) (ls : List Level) (rowId : Option Bytes) (ops : List Op) :
+    (stackedOpen (l0 :: ls) rowId (stackedFuel (l0 :: ls) rowId)).run ops =
+      ((Spec.plain (stackedKeys (l0 :: ls) rowId)).openRun ops).map (Obs.render rowKeyOf) :=
+  (stackedOpen_implements l0 ls rowId (Nat.le_refl _)).run_eq ops
+
+/-! ### non-vacuity and concrete instances -/
+
+/-- a well-formed nested description: union of a filtered typed reverse cursor and a tree set -/
+example : (Desc.union .rev (.filt (.trev 5 [[97], [], [98]]) [[97], []]) (.tree .rev false [[99], [97]])).WF := by
+  refine ⟨trivial, trivial, rfl, rfl⟩
+
+/-- both renders in use are faithful (non-vacuity of `Faithful`) -/
+example : Faithful some ∧ Faithful renderNilEmpty := ⟨faithful_some, faithful_nilEmpty⟩
+
+example : (Desc.validIds (.scan (.fwd [[97], [98], [99]]) [] [[97], [99]]) [[99]]).WF :=
+  ⟨⟨trivial, rfl, rfl⟩, rfl⟩
+
+/-- the empty-string element is an element like any other for the typed cursors … -/
+example : (Desc.tfwd 5 [[97], []]).open.run [.next, .next] = [.value (some []), .value (some [97]), .invalid] := by decide
+/-- … reverse `Seek` on an exact hit returns the element, not the stored key … -/
+example : (Desc.trev 5 [[97], [98]]).open.run [.seek [97]] = [.value (some [98]), .value (some [97])] := by decide
+/-- … and a tree cursor over the empty set is invalid, not a panic. -/
+example : (Desc.tree .fwd false []).open.run [.next] = [.invalid, .invalid] := by decide
+
+/-- a union over the set-symbol cursor, which returns nil for the empty element: the union is
+    valid on it and goes on (before cd6cfe4 it reported invalid here: `current == nil`) -/
+example : (Desc.union .fwd (.setsym [[], [97]]) (.tfwd 5 [[98]])).open.run [.next, .next, .next] =
+    [.value none, .value (some [97]), .value (some [98]), .invalid] := by decide
+
+end StorageModel.Properties.C14
+
+#print axioms StorageModel.Properties.C14.next_seek_mix
+#print axioms StorageModel.Properties.C14.enumerates
+#print axioms StorageModel.Properties.C14.exhausted_invalid
+#print axioms StorageModel.Properties.C14.empty_invalid_no_panic
+#print axioms StorageModel.Properties.C14.untagged
+#print axioms StorageModel.Properties.C14.seek_forward
+#print axioms StorageModel.Properties.C14.seek_reverse
+#print axioms StorageModel.Properties.C14.union_exact
+#print axioms StorageModel.Properties.C14.filtered_exact
+#print axioms StorageModel.Properties.C14.tree_inorder
+#print axioms StorageModel.Properties.C14.allOf_exact
+#print axioms StorageModel.Properties.C14.anyOf_exact
+#print axioms StorageModel.Properties.C14.stacked_exact
